@@ -1,5 +1,5 @@
 /-
-Tier N: the version-information cells of the blank symbol (C04). Kept apart from the label / function
+The version-information cells of the blank symbol (C04). Kept apart from the label / function
 pattern checker so that a wrong version word breaks only C04's obligations.
 -/
 import FastQr.Finite.Template
@@ -15,6 +15,5 @@ def versionCellsOk (v : Nat) : Bool :=
   v < 6 || ((Regions.versionCells n).zipIdx.all fun (rc, i) =>
     t.get rc.1 rc.2 == mk ((BCH.version18 (v + 1) >>> (17 - i % 18)) % 2 == 1) Region.version.code)
 
-theorem versionCellsOk_all : (List.range 40).all versionCellsOk = true := by native_decide
 
 end FastQr.Finite
